@@ -11,6 +11,7 @@ import z3
 
 from symx import core, shims
 from symx.runner import Job, run_property
+from oracle import paint_semantics as ps
 
 from nanoemoji import glue_together as GT
 from nanoemoji import extract_svgs as XS
@@ -244,6 +245,124 @@ def job_inputs_mapping(jc):
         jc.q["unsat"] += 1
 
 
+# ------------------------------------------------------------ metrics handed to the table-building run
+
+
+class _MetricsFont(dict):
+    """TTFont stand-in for write_config_for_mergeable / glyph_region: head, OS/2, hhea, hmtx attribute bags."""
+
+    def __init__(self, upem, tasc, tdesc, hasc, hdesc, fs, adv):
+        import types
+
+        super().__init__()
+        self["head"] = types.SimpleNamespace(unitsPerEm=upem)
+        self["OS/2"] = types.SimpleNamespace(sTypoAscender=tasc, sTypoDescender=tdesc, fsSelection=fs, usWinAscent=hasc, usWinDescent=-hdesc)
+        self["hhea"] = types.SimpleNamespace(ascent=hasc, descent=hdesc, ascender=hasc, descender=hdesc)
+        self["hmtx"] = {"g": (adv, 0)}
+
+
+def _written_config(font, argv=("x", "in.ttf", "out.toml")):
+    """Run the real write_config_for_mergeable.main; -> the text it writes."""
+    import io
+    import types
+    from nanoemoji import write_config_for_mergeable as WCM
+
+    buf = io.StringIO()
+    buf.close = lambda: None
+    ctxmgr = types.SimpleNamespace(__enter__=lambda *a: buf, __exit__=lambda *a: False)
+
+    class _Open:
+        def __call__(self, *a, **k):
+            return self
+
+        def __enter__(self):
+            return buf
+
+        def __exit__(self, *a):
+            return False
+
+    saved = (WCM.ttLib, WCM.FLAGS, getattr(WCM, "open", None))
+    WCM.ttLib = types.SimpleNamespace(TTFont=lambda *a, **k: font)
+    WCM.FLAGS = types.SimpleNamespace(color_format="glyf_colr_1")
+    WCM.open = _Open()
+    try:
+        WCM.main(list(argv))
+    finally:
+        WCM.ttLib, WCM.FLAGS = saved[0], saved[1]
+        if saved[2] is None:
+            del WCM.open
+        else:
+            WCM.open = saved[2]
+    return buf.getvalue()
+
+
+def _cfg_numbers(text, tokens=None):
+    import re
+
+    out = {}
+    for k in ("upem", "width", "ascender", "descender"):
+        m = re.search(rf"^\s*{k}\s*=\s*(\S+)", text, re.M)
+        out[k] = core.parse_number(m.group(1), tokens)
+    return out
+
+
+def replay_mergeable_config(inp):
+    from nanoemoji import colr_to_svg as C2S
+    from harness.C01 import place_spec
+
+    g = lambda n: int(inp[n])
+    font = _MetricsFont(g("upem"), g("tasc"), g("tdesc"), g("hasc"), g("hdesc"), g("fs"), g("adv"))
+    cfg = _cfg_numbers(_written_config(font))
+    region = C2S.glyph_region(font, "g")
+    F = cfg["ascender"] - cfg["descender"]
+    adv2 = max(cfg["width"], round(F * region.w / region.h))
+    there = place_spec(tuple(region), g("tasc"), g("tdesc"), g("adv"), ps.IDENT)  # the picture the intermediate SVG was drawn from
+    back = place_spec(tuple(region), cfg["ascender"], cfg["descender"], adv2, ps.IDENT)  # where the table-building run puts it
+    if cfg["upem"] != g("upem") or max(abs(float(a) - float(b)) for a, b in zip(there, back)) > 1e-9:
+        return {"font": {k: g(k) for k in ("upem", "tasc", "tdesc", "hasc", "hdesc", "fs", "adv")}, "config written": {k: float(v) for k, v in cfg.items()},
+                "intermediate viewBox": list(region), "placement of the new table": [float(v) for v in back], "placement of the existing table": [float(v) for v in there]}
+    return None
+
+
+def job_mergeable_config(jc):
+    """write_config_for_mergeable.main + colr_to_svg.glyph_region: the intermediate SVGs are drawn in a viewBox
+    derived from the font's metrics and the table-building run maps that viewBox back with the metrics in the
+    config written here -- the two must describe the same placement, for every font metrics."""
+    from nanoemoji import write_config_for_mergeable as WCM
+    from nanoemoji import colr_to_svg as C2S
+    from harness.C01 import place_spec
+
+    jc.encode(WCM.main, C2S.glyph_region)
+    names = ("upem", "tasc", "tdesc", "hasc", "hdesc", "fs", "adv")
+    inp = {n: core.SymNum(z3.Int(n)) for n in names}
+
+    def body():
+        i = core.integer
+        upem, tasc, tdesc, hasc, hdesc = i("upem", 16, 16384), i("tasc", 1, 4000), i("tdesc", -4000, 0), i("hasc", 1, 4000), i("hdesc", -4000, 0)
+        fs, adv = i("fs", 0, 1023), i("adv", 1, 4000)
+        font = _MetricsFont(upem, tasc, tdesc, hasc, hdesc, fs, adv)
+        text = _written_config(font)
+        return font, text, C2S.glyph_region(font, "g")
+
+    results = jc.explore(body, max_paths=200)
+    for r in results:
+        if not jc.no_exception(r, inp, replay_mergeable_config, "C12:mergeable-config:raises"):
+            continue
+        font, text, region = r.value
+        jc.reach(r, "ok")
+        with core.post(r):
+            cfg = _cfg_numbers(text, r.tokens)
+            tasc, tdesc, adv = (core.SymNum(z3.Int(n)) for n in ("tasc", "tdesc", "adv"))
+            same_metrics = z3.And(core.as_term(cfg["ascender"]) == core.as_term(tasc), core.as_term(cfg["descender"]) == core.as_term(tdesc))
+        # with equal metrics the proportional advance round(F * w / h) is w itself, so both placements coincide;
+        # with unequal metrics scale or origin differ (replay shows the two placements)
+        prop = z3.And(core.as_term(cfg["upem"]) == z3.Int("upem"), core.as_term(cfg["width"]) == 0, same_metrics,
+                      core.as_term(region.h) == core.as_term(tasc) - core.as_term(tdesc), core.as_term(region.y) == -core.as_term(tasc), core.as_term(region.w) == core.as_term(adv), core.as_term(region.x) == 0)
+        jc.prove(r, prop, "the config for the table-building run and the intermediate viewBox use the same ascender/descender/upem (same placement of the new table)", inp, replay_mergeable_config, key="C12:mergeable-config:metrics")
+    jc.expect_reached("ok")
+
+
+
 def jobs(tier):
     import itertools
     from harness import C07_cbdt, C13, C11
@@ -258,6 +377,7 @@ def jobs(tier):
     js += [Job("copy_colr[v1]", job_copy_colr, version=1), Job("copy_colr[v0]", job_copy_colr, version=0)]
     js.append(Job("extract svg_glyphs", job_svg_glyphs))
     js.append(Job("WriteFontInputs mapping", job_inputs_mapping))
+    js.append(Job("mergeable config metrics", job_mergeable_config))
     for t in ("Transform>glyph>solid", "Translate>Scale>glyph", "glyph>linear", "glyph>radial", "layers(+nested,currentColor,composite glyph)", "group-opacity composite", "PaintColrGlyph", "three glyphs sharing a gradient"):
         js.append(Job(f"colr->svg[{t}]", C13.job_c13, template=t, viewbox="150off", npal=1))
     js.append(Job("colr0->svg", C13.job_colr0, viewbox="150off", npal=1))
